@@ -92,6 +92,26 @@ def ref_mm_stage(thr, b, n, f, o):
   return 6, "COMPLETION"
 
 
+def ref_search_phase(b, n, o, f):
+  """documented search schedule in exact arithmetic: served = (count + open) / max(budget - failures, max(open, 1));
+  initialization up to 1/5, exploitation up to 2/5, explore/resolve afterwards (same table as `C14.searchSpec`)"""
+  served = Fraction(n + o, max(b - f, max(o, 1)))
+  if served <= Fraction(1, 5):
+    return "SEARCH_INITIALIZATION_PHASE"
+  if served <= Fraction(2, 5):
+    return "SEARCH_EXPLOITATION_PHASE"
+  return "SEARCH_EXPLORE_RESOLVE_PHASE"
+
+
+def ref_spe_phase(b, n, f):
+  """documented Parzen schedule (budget > 0): success progress (n - f)/b below 3/20 is initialization unless total progress
+  n/b exceeds 3/10 with a success proportion 1 - f/(n+1) above 1/10; below 3/4 the SKO phase; completion afterwards"""
+  sp, tp, prop = Fraction(n - f, b), Fraction(n, b), 1 - Fraction(f, n + 1)
+  if sp < Fraction(3, 20) and not (tp > Fraction(3, 10) and prop > Fraction(1, 10)):
+    return "INITIALIZATION_PHASE"
+  return "SKO_PHASE" if sp < Fraction(3, 4) else "COMPLETION_PHASE"
+
+
 def check_selectors(ctx, case):
   mm, snp, spe = mods()
   b, n, f, o, thr = case["b"], case["n"], case["f"], case["o"], case["thr"]
@@ -136,6 +156,10 @@ def check_selectors(ctx, case):
     ctx.violation("C14 identify_search_phase raised ZeroDivisionError", {"case": case})
     return
   order = ["SEARCH_INITIALIZATION_PHASE", "SEARCH_EXPLOITATION_PHASE", "SEARCH_EXPLORE_RESOLVE_PHASE"]
+  if abs(b) + abs(n) + abs(f) + abs(o) < 10 ** 14 and sp != ref_search_phase(b, n, o, f):
+    ctx.violation(f"C14 identify_search_phase returns {sp} where the documented progress fractions give {ref_search_phase(b, n, o, f)}",
+                  {"case": case, "returned": sp, "documented": ref_search_phase(b, n, o, f)})
+    return
   sp2 = name_of(snp, snp.identify_search_phase(b, n + 1, o, f))
   if sp in order and sp2 in order and order.index(sp2) < order.index(sp):
     ctx.violation("C14 search phase went backwards when the observation count grew", {"case": case, "phase": sp, "next": sp2})
@@ -148,6 +172,10 @@ def check_selectors(ctx, case):
   if b > 0 and f <= n:
     ph, prog = spe.get_experiment_phase(b, n, f)
     pn = name_of(spe, ph)
+    if abs(b) + abs(n) + abs(f) < 10 ** 14 and pn != ref_spe_phase(b, n, f):
+      ctx.violation(f"C14 get_experiment_phase returns {pn} where the documented progress fractions give {ref_spe_phase(b, n, f)}",
+                    {"case": case, "returned": pn, "documented": ref_spe_phase(b, n, f)})
+      return
     gamma, prop = spe.get_solver_options(ph, prog)
     if not (0 < gamma < 1):
       ctx.violation("C14 gamma outside (0,1)", {"case": case, "gamma": gamma})
